@@ -1,6 +1,5 @@
 import functools
 import re
-import threading
 from contextlib import contextmanager
 from contextvars import ContextVar
 
@@ -9,6 +8,7 @@ from .selector import check_element, select, verify
 from .transform import StackedTransforms, SyncedStackedTransforms, transform
 from .tags import get_tags
 from .utils import autocreate, is_tooled, keyword_decorator
+from .utils import tooling_lock as _tooling_lock
 
 # Cache whether functions match selectors
 _selector_fit_cache = {}
@@ -453,9 +453,6 @@ def inplace(fn):
 tooled.inplace = inplace
 
 
-# Functions are shared by all threads: installing and removing their
-# instrumentation must be done by one thread at a time.
-_tooling_lock = threading.RLock()
 
 
 def _tooler(fn, captures):
